@@ -95,7 +95,6 @@ theorem setConfRev_lookup {ver : Ver} {s s' : State} {x : Nat × Nat} (hf : setC
       exact findC_setC_other hk.1 hk.2 hvi
 
 /-- the revision number recorded for contract `i` by a revision list (first match) -/
-def revFor (i : Nat) (xs : List (Nat × Nat)) : Option Nat := (xs.find? (·.1 == i)).map (·.2)
 
 theorem setConfRevAll_lookup {ver : Ver} :
     ∀ (xs : List (Nat × Nat)) (s s' : State), (xs.map (·.1)).Nodup → setConfRevAll ver xs s = .ok s' →
@@ -328,131 +327,87 @@ theorem revFor_some_mem {i n : Nat} {xs : List (Nat × Nat)} (h : revFor i xs = 
   · exact hm
   · rw [(revFor_none_iff i xs).mpr hm] at h; cases h
 
-theorem eventFor_find (i : Nat) (xs : List (Nat × Nat)) :
-    (xs.find? (·.1 == i)).map (·.2) = revFor i xs := rfl
+/-! ### algebra of `optApply` and of the per-contract event lists -/
 
-/-- With at most one event per contract in the block (`ids1`/`ids2` duplicate-free, the
-well-formedness consensus guarantees) the nine stages collapse to the single per-contract event. -/
-theorem applyStages_eq_event (T : Table) (h : Nat) (ch : Changes) (v : Ver) (i : Nat) (c : Contract)
-    (hv : c.ver = v) (h1 : (ids1 ch).Nodup) (h2 : (ids2 ch).Nodup) :
-    applyStages T h ch v i (some c) =
-      optApply (fun c => match eventFor false v i ch with
-                         | none => .ok c
-                         | some e => evApply T h c e) (some c) := by
-  simp only [ids1, ids2, List.nodup_append, List.mem_append, List.mem_map] at h1 h2
+theorem optApply_optApply (f g : Contract → Except Fault Contract) (o : Option Contract) :
+    optApply g (optApply f o) = optApply (fun c => f c >>= g) o := by
+  cases o with
+  | none => rfl
+  | some c =>
+    simp only [optApply, bind, Except.bind]
+    cases f c <;> rfl
+
+theorem map_eq_optApply (g : Contract → Contract) (o : Option Contract) :
+    o.map g = optApply (fun c => .ok (g c)) o := by
+  cases o <;> rfl
+
+theorem ite_optApply (p : Prop) [Decidable p] (f : Contract → Except Fault Contract) (o : Option Contract) :
+    (if p then optApply f o else o) = optApply (fun c => if p then f c else .ok c) o := by
+  by_cases hp : p
+  · simp [hp]
+  · cases o <;> simp [hp, optApply]
+
+theorem optApply_congr {f g : Contract → Except Fault Contract} {c : Contract} (h : f c = g c) :
+    optApply f (some c) = optApply g (some c) := by
+  simp only [optApply, h]
+
+theorem ok_bind (a : Contract) (f : Contract → Except Fault Contract) :
+    ((Except.ok a : Except Fault Contract) >>= f) = f a := rfl
+theorem bind_ok (x : Except Fault Contract) : (x >>= fun c => (Except.ok c : Except Fault Contract)) = x := by
+  cases x <;> rfl
+
+theorem evsApply_append (T : Table) (h : Nat) (c : Contract) (a b : List Ev) :
+    evsApply T h c (a ++ b) = (evsApply T h c a >>= fun c1 => evsApply T h c1 b) := by
+  induction a generalizing c with
+  | nil => rfl
+  | cons e es ih =>
+    simp only [List.cons_append, evsApply, bind, Except.bind]
+    cases evApply T h c e with
+    | error x => rfl
+    | ok c1 => exact ih c1
+
+theorem evsRevert_append (T : Table) (h : Nat) (c : Contract) (a b : List Ev) :
+    evsRevert T h c (a ++ b) = (evsRevert T h c a >>= fun c1 => evsRevert T h c1 b) := by
+  induction a generalizing c with
+  | nil => rfl
+  | cons e es ih =>
+    simp only [List.cons_append, evsRevert, bind, Except.bind]
+    cases evRevert T h c e with
+    | error x => rfl
+    | ok c1 => exact ih c1
+
+theorem evsApply_single (T : Table) (h : Nat) (c : Contract) (e : Ev) : evsApply T h c [e] = evApply T h c e := by
+  simp only [evsApply, bind, Except.bind]
+  cases evApply T h c e <;> rfl
+
+theorem evsRevert_single (T : Table) (h : Nat) (c : Contract) (e : Ev) : evsRevert T h c [e] = evRevert T h c e := by
+  simp only [evsRevert, bind, Except.bind]
+  cases evRevert T h c e <;> rfl
+
+/-- The nine stages of `applyContracts`, as contract `(v,i)` sees them, are the per-contract events
+`eventsFor v i ch` processed in order — for **every** block of changes (no disjointness needed). -/
+theorem applyStages_eq_events (T : Table) (h : Nat) (ch : Changes) (v : Ver) (i : Nat) (c : Contract)
+    (hv : c.ver = v) :
+    applyStages T h ch v i (some c) = optApply (fun c => evsApply T h c (eventsFor v i ch)) (some c) := by
   cases v with
   | v1 =>
-    simp only [applyStages, eventFor, reduceCtorEq, false_and, if_false, if_true, true_and]
-    by_cases hf : i ∈ ch.form1
-    · have hr : revFor i ch.rev1 = none := by
-        rw [revFor_none_iff]; intro hm
-        obtain ⟨⟨⟨_, _, hd⟩, _⟩, _⟩ := h1
-        exact hd i hf i (by simpa using hm) rfl
-      have hs : i ∉ ch.succ1 := by
-        intro hm; obtain ⟨⟨_, _, hd⟩, _⟩ := h1
-        exact hd i (Or.inl hf) i hm rfl
-      have hfl : i ∉ ch.fail1 := by
-        intro hm; obtain ⟨_, _, hd⟩ := h1
-        exact hd i (Or.inl (Or.inl hf)) i hm rfl
-      simp [hf, hr, hs, hfl, optApply, evApply, hv, List.contains_iff_mem]
-    · cases hr : revFor i ch.rev1 with
-      | some n =>
-        have hm := revFor_some_mem hr
-        have hs : i ∉ ch.succ1 := by
-          intro hm'; obtain ⟨⟨_, _, hd⟩, _⟩ := h1
-          exact hd i (Or.inr (by simpa using hm)) i hm' rfl
-        have hfl : i ∉ ch.fail1 := by
-          intro hm'; obtain ⟨_, _, hd⟩ := h1
-          exact hd i (Or.inl (Or.inr (by simpa using hm))) i hm' rfl
-        have hfind : ch.rev1.find? (·.1 == i) = some (i, n) ∨ True := Or.inr trivial
-        simp only [hf, if_false, hs, hfl, optApply, List.contains_iff_mem, Option.map]
-        have : (List.find? (fun x => x.1 == i) ch.rev1).map (·.2) = some n := hr
-        cases hfd : List.find? (fun x => x.1 == i) ch.rev1 with
-        | none => simp [hfd] at this
-        | some y =>
-          simp [hfd] at this
-          simp [hfd, this, evApply]
-      | none =>
-        have hnf : List.find? (fun x => x.1 == i) ch.rev1 = none := by
-          have : (List.find? (fun x => x.1 == i) ch.rev1).map (·.2) = none := hr
-          simpa using this
-        by_cases hs : i ∈ ch.succ1
-        · have hfl : i ∉ ch.fail1 := by
-            intro hm'; obtain ⟨_, _, hd⟩ := h1
-            exact hd i (Or.inr hs) i hm' rfl
-          simp [hf, hnf, hs, hfl, optApply, evApply, List.contains_iff_mem]
-        · by_cases hfl : i ∈ ch.fail1
-          · simp [hf, hnf, hs, hfl, optApply, evApply, List.contains_iff_mem]
-          · simp [hf, hnf, hs, hfl, optApply, List.contains_iff_mem]
+    simp only [applyStages, eventsFor, reduceCtorEq, false_and, if_false, if_true, true_and]
+    by_cases hf : i ∈ ch.form1 <;> cases hr : revFor i ch.rev1 <;>
+      by_cases hs : i ∈ ch.succ1 <;> by_cases hfl : i ∈ ch.fail1 <;>
+      simp only [hf, hs, hfl, if_true, if_false, map_eq_optApply, optApply_optApply, evIf, evOpt,
+        List.contains_iff_mem, decide_true, decide_false, List.nil_append, List.append_nil, List.cons_append] <;>
+      (try rfl) <;>
+      (apply optApply_congr) <;>
+      simp only [evsApply, evApply, hv, ok_bind, bind_ok, bind_assoc, reduceCtorEq, if_false, if_true]
   | v2 =>
-    simp only [applyStages, eventFor, reduceCtorEq, false_and, if_false, if_true, true_and]
-    cases hfm : revFor i ch.form2 with
-    | some r =>
-      have hm := revFor_some_mem hfm
-      have hr : revFor i ch.rev2 = none := by
-        rw [revFor_none_iff]; intro hm'
-        obtain ⟨⟨⟨⟨_, _, hd⟩, _⟩, _⟩, _⟩ := h2
-        exact hd i (by simpa using hm) i (by simpa using hm') rfl
-      have hs : i ∉ ch.succ2 := by
-        intro hm'; obtain ⟨⟨⟨_, _, hd⟩, _⟩, _⟩ := h2
-        exact hd i (Or.inl (by simpa using hm)) i hm' rfl
-      have hrn : i ∉ ch.renew2 := by
-        intro hm'; obtain ⟨⟨_, _, hd⟩, _⟩ := h2
-        exact hd i (Or.inl (Or.inl (by simpa using hm))) i hm' rfl
-      have hfl : i ∉ ch.fail2 := by
-        intro hm'; obtain ⟨_, _, hd⟩ := h2
-        exact hd i (Or.inl (Or.inl (Or.inl (by simpa using hm)))) i hm' rfl
-      have : (List.find? (fun x => x.1 == i) ch.form2).map (·.2) = some r := hfm
-      cases hfd : List.find? (fun x => x.1 == i) ch.form2 with
-      | none => simp [hfd] at this
-      | some y =>
-        simp [hfd] at this
-        simp [hfd, this, hr, hs, hrn, hfl, optApply, evApply, hv]
-    | none =>
-      have hnf : List.find? (fun x => x.1 == i) ch.form2 = none := by
-        have : (List.find? (fun x => x.1 == i) ch.form2).map (·.2) = none := hfm
-        simpa using this
-      cases hr : revFor i ch.rev2 with
-      | some n =>
-        have hm := revFor_some_mem hr
-        have hs : i ∉ ch.succ2 := by
-          intro hm'; obtain ⟨⟨⟨_, _, hd⟩, _⟩, _⟩ := h2
-          exact hd i (Or.inr (by simpa using hm)) i hm' rfl
-        have hrn : i ∉ ch.renew2 := by
-          intro hm'; obtain ⟨⟨_, _, hd⟩, _⟩ := h2
-          exact hd i (Or.inl (Or.inr (by simpa using hm))) i hm' rfl
-        have hfl : i ∉ ch.fail2 := by
-          intro hm'; obtain ⟨_, _, hd⟩ := h2
-          exact hd i (Or.inl (Or.inl (Or.inr (by simpa using hm)))) i hm' rfl
-        have : (List.find? (fun x => x.1 == i) ch.rev2).map (·.2) = some n := hr
-        cases hfd : List.find? (fun x => x.1 == i) ch.rev2 with
-        | none => simp [hfd] at this
-        | some y =>
-          simp [hfd] at this
-          simp [hnf, hfd, this, hs, hrn, hfl, optApply, evApply]
-      | none =>
-        have hnr : List.find? (fun x => x.1 == i) ch.rev2 = none := by
-          have : (List.find? (fun x => x.1 == i) ch.rev2).map (·.2) = none := hr
-          simpa using this
-        by_cases hs : i ∈ ch.succ2
-        · have hrn : i ∉ ch.renew2 := by
-            intro hm'; obtain ⟨⟨_, _, hd⟩, _⟩ := h2
-            exact hd i (Or.inr hs) i hm' rfl
-          have hfl : i ∉ ch.fail2 := by
-            intro hm'; obtain ⟨_, _, hd⟩ := h2
-            exact hd i (Or.inl (Or.inr hs)) i hm' rfl
-          simp [hnf, hnr, hs, hrn, hfl, optApply, evApply, List.contains_iff_mem]
-        · by_cases hrn : i ∈ ch.renew2
-          · have hfl : i ∉ ch.fail2 := by
-              intro hm'; obtain ⟨_, _, hd⟩ := h2
-              exact hd i (Or.inr hrn) i hm' rfl
-            simp [hnf, hnr, hs, hrn, hfl, optApply, evApply, List.contains_iff_mem]
-          · by_cases hfl : i ∈ ch.fail2
-            · simp [hnf, hnr, hs, hrn, hfl, optApply, evApply, List.contains_iff_mem]
-            · simp [hnf, hnr, hs, hrn, hfl, optApply, List.contains_iff_mem]
-
-
-
+    simp only [applyStages, eventsFor, reduceCtorEq, false_and, if_false, if_true, true_and]
+    cases hfm : revFor i ch.form2 <;> cases hr : revFor i ch.rev2 <;>
+      by_cases hs : i ∈ ch.succ2 <;> by_cases hrn : i ∈ ch.renew2 <;> by_cases hfl : i ∈ ch.fail2 <;>
+      simp only [hs, hrn, hfl, if_true, if_false, map_eq_optApply, optApply_optApply, evIf, evOpt,
+        List.contains_iff_mem, decide_true, decide_false, List.nil_append, List.append_nil, List.cons_append] <;>
+      (try rfl) <;>
+      (apply optApply_congr) <;>
+      simp only [evsApply, evApply, hv, ok_bind, bind_ok, bind_assoc, reduceCtorEq, if_false, if_true]
 
 /-! ### the same for `revertContracts` -/
 
@@ -520,127 +475,29 @@ theorem revertContracts_lookup {T : Table} {h : Nat} {ch : Changes} {s s' : Stat
   rfl
 
 
-/-- With at most one event per contract in the block (`ids1`/`ids2` duplicate-free, the
-well-formedness consensus guarantees) the nine stages collapse to the single per-contract event. -/
-theorem revertStages_eq_event (T : Table) (h : Nat) (ch : Changes) (v : Ver) (i : Nat) (c : Contract)
-    (hv : c.ver = v) (h1 : (ids1 ch).Nodup) (h2 : (ids2 ch).Nodup) :
-    revertStages T h ch v i (some c) =
-      optApply (fun c => match eventFor true v i ch with
-                         | none => .ok c
-                         | some e => evRevert T h c e) (some c) := by
-  simp only [ids1, ids2, List.nodup_append, List.mem_append, List.mem_map] at h1 h2
+/-- the same for `revertContracts` -/
+theorem revertStages_eq_events (T : Table) (h : Nat) (ch : Changes) (v : Ver) (i : Nat) (c : Contract)
+    (hv : c.ver = v) :
+    revertStages T h ch v i (some c) = optApply (fun c => evsRevert T h c (eventsFor v i ch)) (some c) := by
   cases v with
   | v1 =>
-    simp only [revertStages, eventFor, reduceCtorEq, false_and, if_false, if_true, true_and]
-    by_cases hf : i ∈ ch.form1
-    · have hr : revFor i ch.rev1 = none := by
-        rw [revFor_none_iff]; intro hm
-        obtain ⟨⟨⟨_, _, hd⟩, _⟩, _⟩ := h1
-        exact hd i hf i (by simpa using hm) rfl
-      have hs : i ∉ ch.succ1 := by
-        intro hm; obtain ⟨⟨_, _, hd⟩, _⟩ := h1
-        exact hd i (Or.inl hf) i hm rfl
-      have hfl : i ∉ ch.fail1 := by
-        intro hm; obtain ⟨_, _, hd⟩ := h1
-        exact hd i (Or.inl (Or.inl hf)) i hm rfl
-      simp [hf, hr, hs, hfl, optApply, evRevert, hv, List.contains_iff_mem]
-    · cases hr : revFor i ch.rev1 with
-      | some n =>
-        have hm := revFor_some_mem hr
-        have hs : i ∉ ch.succ1 := by
-          intro hm'; obtain ⟨⟨_, _, hd⟩, _⟩ := h1
-          exact hd i (Or.inr (by simpa using hm)) i hm' rfl
-        have hfl : i ∉ ch.fail1 := by
-          intro hm'; obtain ⟨_, _, hd⟩ := h1
-          exact hd i (Or.inl (Or.inr (by simpa using hm))) i hm' rfl
-        have hfind : ch.rev1.find? (·.1 == i) = some (i, n) ∨ True := Or.inr trivial
-        simp only [hf, if_false, hs, hfl, optApply, List.contains_iff_mem, Option.map]
-        have : (List.find? (fun x => x.1 == i) ch.rev1).map (·.2) = some n := hr
-        cases hfd : List.find? (fun x => x.1 == i) ch.rev1 with
-        | none => simp [hfd] at this
-        | some y =>
-          simp [hfd] at this
-          simp [hfd, this, evRevert]
-      | none =>
-        have hnf : List.find? (fun x => x.1 == i) ch.rev1 = none := by
-          have : (List.find? (fun x => x.1 == i) ch.rev1).map (·.2) = none := hr
-          simpa using this
-        by_cases hs : i ∈ ch.succ1
-        · have hfl : i ∉ ch.fail1 := by
-            intro hm'; obtain ⟨_, _, hd⟩ := h1
-            exact hd i (Or.inr hs) i hm' rfl
-          simp [hf, hnf, hs, hfl, optApply, evRevert, List.contains_iff_mem]
-        · by_cases hfl : i ∈ ch.fail1
-          · simp [hf, hnf, hs, hfl, optApply, evRevert, List.contains_iff_mem]
-          · simp [hf, hnf, hs, hfl, optApply, List.contains_iff_mem]
+    simp only [revertStages, eventsFor, reduceCtorEq, false_and, if_false, if_true, true_and]
+    by_cases hf : i ∈ ch.form1 <;> cases hr : revFor i ch.rev1 <;>
+      by_cases hs : i ∈ ch.succ1 <;> by_cases hfl : i ∈ ch.fail1 <;>
+      simp only [hf, hs, hfl, if_true, if_false, map_eq_optApply, optApply_optApply, evIf, evOpt,
+        List.contains_iff_mem, decide_true, decide_false, List.nil_append, List.append_nil, List.cons_append] <;>
+      (try rfl) <;>
+      (apply optApply_congr) <;>
+      simp only [evsRevert, evRevert, hv, ok_bind, bind_ok, bind_assoc, reduceCtorEq, if_false, if_true]
   | v2 =>
-    simp only [revertStages, eventFor, reduceCtorEq, false_and, if_false, if_true, true_and]
-    cases hfm : revFor i ch.form2 with
-    | some r =>
-      have hm := revFor_some_mem hfm
-      have hr : revFor i ch.rev2 = none := by
-        rw [revFor_none_iff]; intro hm'
-        obtain ⟨⟨⟨⟨_, _, hd⟩, _⟩, _⟩, _⟩ := h2
-        exact hd i (by simpa using hm) i (by simpa using hm') rfl
-      have hs : i ∉ ch.succ2 := by
-        intro hm'; obtain ⟨⟨⟨_, _, hd⟩, _⟩, _⟩ := h2
-        exact hd i (Or.inl (by simpa using hm)) i hm' rfl
-      have hrn : i ∉ ch.renew2 := by
-        intro hm'; obtain ⟨⟨_, _, hd⟩, _⟩ := h2
-        exact hd i (Or.inl (Or.inl (by simpa using hm))) i hm' rfl
-      have hfl : i ∉ ch.fail2 := by
-        intro hm'; obtain ⟨_, _, hd⟩ := h2
-        exact hd i (Or.inl (Or.inl (Or.inl (by simpa using hm)))) i hm' rfl
-      have : (List.find? (fun x => x.1 == i) ch.form2).map (·.2) = some r := hfm
-      cases hfd : List.find? (fun x => x.1 == i) ch.form2 with
-      | none => simp [hfd] at this
-      | some y =>
-        simp [hfd] at this
-        simp [hfd, this, hr, hs, hrn, hfl, optApply, evRevert, hv]
-    | none =>
-      have hnf : List.find? (fun x => x.1 == i) ch.form2 = none := by
-        have : (List.find? (fun x => x.1 == i) ch.form2).map (·.2) = none := hfm
-        simpa using this
-      cases hr : revFor i ch.rev2 with
-      | some n =>
-        have hm := revFor_some_mem hr
-        have hs : i ∉ ch.succ2 := by
-          intro hm'; obtain ⟨⟨⟨_, _, hd⟩, _⟩, _⟩ := h2
-          exact hd i (Or.inr (by simpa using hm)) i hm' rfl
-        have hrn : i ∉ ch.renew2 := by
-          intro hm'; obtain ⟨⟨_, _, hd⟩, _⟩ := h2
-          exact hd i (Or.inl (Or.inr (by simpa using hm))) i hm' rfl
-        have hfl : i ∉ ch.fail2 := by
-          intro hm'; obtain ⟨_, _, hd⟩ := h2
-          exact hd i (Or.inl (Or.inl (Or.inr (by simpa using hm)))) i hm' rfl
-        have : (List.find? (fun x => x.1 == i) ch.rev2).map (·.2) = some n := hr
-        cases hfd : List.find? (fun x => x.1 == i) ch.rev2 with
-        | none => simp [hfd] at this
-        | some y =>
-          simp [hfd] at this
-          simp [hnf, hfd, this, hs, hrn, hfl, optApply, evRevert]
-      | none =>
-        have hnr : List.find? (fun x => x.1 == i) ch.rev2 = none := by
-          have : (List.find? (fun x => x.1 == i) ch.rev2).map (·.2) = none := hr
-          simpa using this
-        by_cases hs : i ∈ ch.succ2
-        · have hrn : i ∉ ch.renew2 := by
-            intro hm'; obtain ⟨⟨_, _, hd⟩, _⟩ := h2
-            exact hd i (Or.inr hs) i hm' rfl
-          have hfl : i ∉ ch.fail2 := by
-            intro hm'; obtain ⟨_, _, hd⟩ := h2
-            exact hd i (Or.inl (Or.inr hs)) i hm' rfl
-          simp [hnf, hnr, hs, hrn, hfl, optApply, evRevert, List.contains_iff_mem]
-        · by_cases hrn : i ∈ ch.renew2
-          · have hfl : i ∉ ch.fail2 := by
-              intro hm'; obtain ⟨_, _, hd⟩ := h2
-              exact hd i (Or.inr hrn) i hm' rfl
-            simp [hnf, hnr, hs, hrn, hfl, optApply, evRevert, List.contains_iff_mem]
-          · by_cases hfl : i ∈ ch.fail2
-            · simp [hnf, hnr, hs, hrn, hfl, optApply, evRevert, List.contains_iff_mem]
-            · simp [hnf, hnr, hs, hrn, hfl, optApply, List.contains_iff_mem]
-
-
+    simp only [revertStages, eventsFor, reduceCtorEq, false_and, if_false, if_true, true_and]
+    cases hfm : revFor i ch.form2 <;> cases hr : revFor i ch.rev2 <;>
+      by_cases hs : i ∈ ch.succ2 <;> by_cases hrn : i ∈ ch.renew2 <;> by_cases hfl : i ∈ ch.fail2 <;>
+      simp only [hs, hrn, hfl, if_true, if_false, map_eq_optApply, optApply_optApply, evIf, evOpt,
+        List.contains_iff_mem, decide_true, decide_false, List.nil_append, List.append_nil, List.cons_append] <;>
+      (try rfl) <;>
+      (apply optApply_congr) <;>
+      simp only [evsRevert, evRevert, hv, ok_bind, bind_ok, bind_assoc, reduceCtorEq, if_false, if_true]
 
 /-! ### keys are never changed; the reject stage -/
 
@@ -858,16 +715,17 @@ theorem listsNodup_of_ids {ch : Changes} (h1 : (ids1 ch).Nodup) (h2 : (ids2 ch).
 
 /-- **Projection of a connected block**: after `applyBlock` (ApplyContracts followed by
 RejectContracts(h - rb) when h ≥ rb) the row of every contract is what the per-contract step
-`stepH … (.apply h (eventFor …))` makes of its previous row. -/
+`stepH … (.apply h (eventsFor …))` makes of its previous row.  Only "no list mentions a contract
+twice" is needed; a contract may occur in several lists. -/
 theorem applyBlock_lookup {T : Table} {rb h : Nat} {ch : Changes} {s s' : State}
-    (h1 : (ids1 ch).Nodup) (h2 : (ids2 ch).Nodup) (hk : KeysNodup s.cs)
+    (hn : ListsNodup ch) (hk : KeysNodup s.cs)
     (hf : applyBlock T rb h ch s = .ok s') (v : Ver) (i : Nat) :
-    findC v i s'.cs = optApply (fun c => stepH T rb c (.apply h (eventFor false v i ch))) (findC v i s.cs) := by
+    findC v i s'.cs = optApply (fun c => stepH T rb c (.apply h (eventsFor v i ch))) (findC v i s.cs) := by
   unfold applyBlock at hf
   simp only [bind, Except.bind] at hf
   split at hf; · cases hf
   rename_i s1 hs1
-  have hl1 := applyContracts_lookup (listsNodup_of_ids h1 h2) hs1 v i
+  have hl1 := applyContracts_lookup hn hs1 v i
   have hk1 : KeysNodup s1.cs := by
     unfold KeysNodup; rw [applyContracts_keeps T h ch s s1 hs1]; exact hk
   cases hfind : findC v i s.cs with
@@ -877,21 +735,17 @@ theorem applyBlock_lookup {T : Table} {rb h : Nat} {ch : Changes} {s s' : State}
     · rw [rejectContracts_lookup hk1 hf v i, hl1]; rfl
     · cases hf; rw [hl1]; rfl
   | some c =>
-    rw [hfind, applyStages_eq_event T h ch v i c (findC_some_ver_id hfind).1 h1 h2] at hl1
+    rw [hfind, applyStages_eq_events T h ch v i c (findC_some_ver_id hfind).1] at hl1
     by_cases hrb : h ≥ rb
     · simp only [hrb, if_true] at hf
       rw [rejectContracts_lookup hk1 hf v i, hl1]
       simp only [optApply, stepH, hrb, if_true, bind, Except.bind, pure, Except.pure]
-      cases eventFor false v i ch with
-      | none => simp
-      | some e => cases hev : evApply T h c e <;> simp [hev]
+      cases hev : evsApply T h c (eventsFor v i ch) <;> simp
     · simp only [hrb, if_false] at hf
       cases hf
       rw [hl1]
       simp only [optApply, stepH, hrb, if_false, bind, Except.bind, pure, Except.pure]
-      cases eventFor false v i ch with
-      | none => simp
-      | some e => cases hev : evApply T h c e <;> simp [hev]
+      cases hev : evsApply T h c (eventsFor v i ch) <;> simp
 
 
 theorem revertStages_none (T : Table) (h : Nat) (ch : Changes) (v : Ver) (i : Nat) :
@@ -901,19 +755,16 @@ theorem revertStages_none (T : Table) (h : Nat) (ch : Changes) (v : Ver) (i : Na
 
 /-- **Projection of a disconnected block** -/
 theorem revertBlock_lookup {T : Table} {rb h : Nat} {ch : Changes} {s s' : State}
-    (h1 : (ids1 ch).Nodup) (h2 : (ids2 ch).Nodup)
+    (hn : ListsNodup ch)
     (hf : revertContracts T h ch s = .ok s') (v : Ver) (i : Nat) :
-    findC v i s'.cs = optApply (fun c => stepH T rb c (.revert h (eventFor true v i ch))) (findC v i s.cs) := by
-  have hl := revertContracts_lookup (listsNodup_of_ids h1 h2) hf v i
+    findC v i s'.cs = optApply (fun c => stepH T rb c (.revert h (eventsFor v i ch))) (findC v i s.cs) := by
+  have hl := revertContracts_lookup hn hf v i
   cases hfind : findC v i s.cs with
   | none => rw [hfind, revertStages_none] at hl; rw [hl]; rfl
   | some c =>
-    rw [hfind, revertStages_eq_event T h ch v i c (findC_some_ver_id hfind).1 h1 h2] at hl
+    rw [hfind, revertStages_eq_events T h ch v i c (findC_some_ver_id hfind).1] at hl
     rw [hl]
-    simp only [optApply, stepH, pure, Except.pure]
-    cases eventFor true v i ch with
-    | none => simp
-    | some e => cases hev : evRevert T h c e <;> simp [hev]
+    simp only [optApply, stepH]
 
 theorem unformV2All_keeps (T : Table) (h : Nat) (ids : List Nat) : Keeps (unformV2All T h ids) := by
   induction ids with
